@@ -3,6 +3,7 @@ package c34
 import (
 	"encoding/json"
 	"fmt"
+	"os"
 	"sort"
 	"strings"
 	"testing"
@@ -146,7 +147,7 @@ type machB struct {
 	dead  bool
 
 	accepted, rejectedConflict, rejectedOther, rejectedCapacity int
-	removedMultiKey, removedAny, blocks, replaced              int
+	removedMultiKey, removedAny, blocks, replaced               int
 	fullCleanups, fullWithInputless                             int
 	slotsHit                                                    map[string]bool
 	typesAccepted                                               map[string]int
@@ -582,7 +583,9 @@ func runB(t *rapid.T, w *worldB) *machB {
 			tx := pooled[rapid.IntRange(0, len(pooled)-1).Draw(t, "which")]
 			nk := len(flatKeys(m.pool, tx))
 			how := "pool-object"
-			if rapid.Bool().Draw(t, "wireCopy") {
+			// C34_NO_REMOVE_COPY=1 (sensitivity runs only) leaves the block paths as the
+			// only ones that hand the pool a separately deserialized object
+			if rapid.Bool().Draw(t, "wireCopy") && os.Getenv("C34_NO_REMOVE_COPY") == "" {
 				tx, how = m.copyOf(tx), "wire-copy"
 			}
 			m.op = "remove/" + how
